@@ -2,6 +2,10 @@ mod common;
 mod c12;
 mod c13;
 mod c15;
+mod c06;
+mod c07;
+mod animgen;
+mod webpfile;
 mod oracle;
 
 use common::*;
@@ -61,6 +65,8 @@ fn main() {
         "C12" => c12::run(&o),
         "C13" => c13::run(&o),
         "C15" => c15::run(&o),
+        "C06" => c06::run(&o),
+        "C07" => c07::run(&o),
         _ => {
             eprintln!("unknown property {prop}");
             std::process::exit(2);
